@@ -152,7 +152,9 @@ class Seq:
             followed = False
             for f in ev[i + 1:]:
                 if f["kind"] == "inc":
-                    followed = True
+                    # the increment belongs to this allocation only if it happens under exactly the same conditions
+                    # and in the same loop: an id must advance when, and only when, one was consumed
+                    followed = f["guards"] == e["guards"] and f["loops"] == e["loops"]
                     break
                 if f["kind"] in ("tag", "rel"):
                     break
